@@ -113,6 +113,7 @@ def fake_input():
     if not SESS.lines:
         LOG.append(("read", "")); raise EOFError()
     l = SESS.lines.pop(0); LOG.append(("read", l)); return l
+REAL_GET_INPUT = ih.InputHandlerRequest.__dict__["_get_input"]        # the library's own console read (used by the rawread cases of C06)
 ih.InputHandlerRequest._get_input = staticmethod(fake_input)
 
 _orig_get = queue.Queue.get
@@ -170,7 +171,11 @@ class World:
         if ref is None: return None
         ref = tuple(ref)
         if ref[0] == "scr": return self.screens[ref[1]]
-        return self.srcs.setdefault(ref, type("Src", (), {})())
+        # (every other source object is falsy - an empty container-like object: a source is "anything", identified by equality / hash, not by its truth value)
+        if ref not in self.srcs:
+            falsy = len(ref) > 1 and isinstance(ref[1], int) and ref[1] % 2 == 1
+            self.srcs[ref] = type("Src", (), {"__len__": lambda s_: 0} if falsy else {})()
+        return self.srcs[ref]
     def cls(self, name):
         if name in FRAMEWORK_CLASSES: return FRAMEWORK_CLASSES[name]       # an application handler registered for one of the framework's own signal classes
         if name not in self.classes:
@@ -224,7 +229,13 @@ class World:
             else: tgt.replace_screen(self.screens[a[1]], a[2])
         elif k == "close_direct": sch.close_screen()
         elif k == "close_sig": self.screens[a[1]].close()
-        elif k == "redraw_sig": self.screens[a[1]].redraw()
+        elif k == "redraw_sig":
+            # every other time through SignalHandler.create_and_emit (the same signal: a RenderScreenSignal of default priority whose source is the screen)
+            self.nredraw = getattr(self, "nredraw", 0) + 1
+            if self.nredraw % 2 == 0:
+                from simpleline.event_loop.signals import RenderScreenSignal
+                self.screens[a[1]].create_and_emit(RenderScreenSignal)
+            else: self.screens[a[1]].redraw()
         elif k == "sched_redraw": sch.redraw()
         elif k == "set_width": App.get_configuration().width = a[1]       # (adapter-only: the model's width is a constant of the program)
         elif k == "get_user_input": self.screens[a[1]].get_user_input("msg", a[2]); LOG.append(("gui<",))
